@@ -7,6 +7,7 @@
 import Mhd.Proofs.ConnMemSpec
 import Mhd.Proofs.ConnReadParse
 import Mhd.Proofs.ReqLinePost
+import Mhd.Proofs.FramingChunk
 namespace Mhd.ConnRead
 open Mhd.ConnMem Mhd.Req Mhd.Gen
 
@@ -20,11 +21,17 @@ structure Link (i : Nat) (c : CM) (rb size : Nat) : Prop where
 theorem Link.setMem {i : Nat} {c : CM} {rb size : Nat} (h : Link i c rb size) (m : List UInt8) : Link i (setMem c m) rb size :=
   ⟨h.recv.setMem m, h.sz, h.inc⟩
 
+/-- the request strings lie below `read_buffer` (what the trailer parser needs) -/
+def RqOk (rb : Nat) (rq : Rq) : Prop := rq.version + Discipline.httpVerLen + 1 ≤ rb
+
 /-- what holds in each phase -/
 def PhaseInv (i : Nat) (lvl : Int) (c : CM) : Phase → Prop
   | .reqLine s => Link i c s.rb s.buf.size ∧ RLInvX (RLFlags.ofLevel lvl) s
-  | .headers s _ => Link i c s.rb s.buf.size ∧ HSP.Inv s
-  | .headersDone h => Link i c h.rb h.buf.size
+  | .headers s _ => Link i c s.rb s.buf.size ∧ HSP.Inv s ∧ HSP.Inv2 s
+  | .headersDone h rq => Link i c h.rb h.buf.size ∧ RqOk h.rb rq
+  | .body b => Link i c b.rb b.buf.size ∧ RqOk b.rb b.rq
+  | .footers s _ => Link i c s.rb s.buf.size ∧ HSP.Inv s
+  | .reqDone buf rb _ => Link i c rb buf.size
   | .error _ => CMInv c
   | .fault _ => False
   | .refused _ => False
@@ -36,6 +43,9 @@ def Safe (i : Nat) (x : CR) : Prop := PhaseInv i x.lvl x.cm x.phase
 theorem safe_cminv {i : Nat} {x : CR} (h : Safe i x) : CMInv x.cm := by
   unfold Safe at h
   cases hp : x.phase <;> rw [hp] at h <;> simp only [PhaseInv] at h
+  · exact h.1.recv.inv
+  · exact h.1.recv.inv
+  · exact h.1.recv.inv
   · exact h.1.recv.inv
   · exact h.1.recv.inv
   · exact h.recv.inv
@@ -90,12 +100,27 @@ theorem allocN_spec (i : Nat) (n : Nat) : ∀ {c : CM} {r size : Nat}, Link i c 
     | size k => exact ⟨hl, a.2.2.2.1, a.2.2.2.2.1⟩
     | badOp => exact ⟨hl, a.2.2.2.1, a.2.2.2.2.1⟩
 
-/-- the state in which header parsing starts satisfies the header parser's invariant -/
+/-- the state in which header parsing starts satisfies the header parser's invariants -/
 theorem ofTarget_inv (t : Target) (n : Nat) (h1 : t.rb ≤ t.buf.size)
     (h2 : t.version + Discipline.httpVerLen + 1 ≤ t.rb)
     (h3 : ∀ el ∈ t.elems, el.kind ≠ Http.kindHeader) : HSP.Inv (HS.ofTarget t n) :=
   ⟨by simpa [HS.ofTarget] using h1, by show 1 ≤ t.rb; omega, Nat.le_refl _, Nat.le_refl _,
    Nat.le_refl _, h2, fun el hm hk => absurd hk (h3 el hm)⟩
+
+theorem ofTarget_inv2 (t : Target) (n : Nat)
+    (h3 : ∀ el ∈ t.elems, el.kind ≠ Http.kindHeader)
+    (h4 : ∀ el ∈ t.elems, ∀ sl ∈ HSP.Elem.slices el, sl.region = 0 →
+      sl.off + sl.len ≤ t.version + Discipline.httpVerLen) : HSP.Inv2 (HS.ofTarget t n) := by
+  have hL : lastElemEnd (HS.ofTarget t n) = t.version + Discipline.httpVerLen := by
+    unfold lastElemEnd
+    show (match t.elems.getLast? with | some e => _ | none => _) = _
+    split
+    next e he =>
+      have hk := h3 e (List.mem_of_getLast? he)
+      rw [if_neg (by simpa using hk)]; rfl
+    next => rfl
+  exact ⟨fun _ => rfl, fun _ _ => rfl, fun h => absurd rfl h, by rw [hL]; exact Nat.le_refl _,
+    by rw [hL]; exact h4⟩
 
 theorem afterLine_safe (i : Nat) (x : CR) (r : ReqLine) (hl : Link i x.cm r.rb r.buf.size) (hp : RLPost r) :
     Safe i (afterLine x r) ∧ (afterLine x r).lvl = x.lvl := by
@@ -118,13 +143,24 @@ theorem afterLine_safe (i : Nat) (x : CR) (r : ReqLine) (hl : Link i x.cm r.rb r
       have := errorOut_safe i { x with cm := c1 } (.reply Mhd.Gen.ConnMem.httpHeaderFieldsTooLarge) _ a.1.recv
       exact ⟨this.1, this.2.1⟩
     | true =>
-      refine ⟨⟨?_, ?_⟩, rfl⟩
+      have hk3 : ∀ el ∈ T.elems, el.kind ≠ Http.kindHeader := by
+        intro el hm; rw [(hel el hm).2]; decide
+      refine ⟨⟨?_, ?_, ?_⟩, rfl⟩
       · show Link i (writeBack c1 T.buf) T.rb T.buf.size
         rw [hrb, hsz]; exact a.1.setMem _
       · apply ofTarget_inv
         · rw [hrb, hsz]; exact hp.hrb
         · rw [hrb, hver]; exact hv
-        · intro el hm; rw [(hel el hm).2]; decide
+        · exact hk3
+      · apply ofTarget_inv2 _ _ hk3
+        intro el hm sl hsl _
+        have hin := (hel el hm).1
+        have htl := hp.htl
+        rw [hver]
+        simp only [HSP.Elem.slices, List.mem_cons, Option.mem_toList] at hsl
+        rcases hsl with rfl | hv'
+        · have := hin.2.1; omega
+        · have := (hin.2.2.1 sl (by simpa using hv')).2; omega
 
 theorem idleReqLine_safe (i : Nat) (x : CR) (s : RL) (hl : Link i x.cm s.rb s.buf.size)
     (hi : RLInvX (RLFlags.ofLevel x.lvl) s) :
@@ -157,37 +193,61 @@ theorem idleReqLine_safe (i : Nat) (x : CR) (s : RL) (hl : Link i x.cm s.rb s.bu
 theorem inv_rbSize {s : HS} (h : HSP.Inv s) (n : Nat) : HSP.Inv { s with rbSize := n } :=
   ⟨h.hp, h.hrb, h.hws, h.hname, h.hvs, h.hver, h.helems⟩
 
-theorem hdrBody_safe (i : Nat) (lvl : Int) (fs : Nat) (k : CM → HS → CR) (m : Nat)
-    (hk : ∀ (c : CM) (s : HS), Link i c s.rb s.buf.size → HSP.Inv s →
+theorem inv2_rbSize {s : HS} (h : HSP.Inv2 s) (n : Nat) : HSP.Inv2 { s with rbSize := n } :=
+  ⟨h.hn0, h.hv0, h.hvs2, h.hLver, h.hmax⟩
+
+/-- what the lines loop carries: the header parser's invariant, and for the header section (not the
+    footers) the second layer (where the strings end) -/
+def LinesInv (ft : Option Rq) (s : HS) : Prop := HSP.Inv s ∧ (ft = none → HSP.Inv2 s)
+
+theorem linesPhase_safe (i : Nat) (lvl : Int) (c : CM) (ft : Option Rq) (s : HS) (fs : Nat)
+    (hl : Link i c s.rb s.buf.size) (hi : LinesInv ft s) :
+    Safe i { cm := c, lvl := lvl, phase := linesPhase ft s fs } := by
+  cases ft with
+  | none => exact ⟨hl, hi.1, hi.2 rfl⟩
+  | some n => exact ⟨hl, hi.1⟩
+
+theorem hdrBody_safe (i : Nat) (lvl : Int) (fs : Nat) (ft : Option Rq) (k : CM → HS → CR) (m : Nat)
+    (hk : ∀ (c : CM) (s : HS), Link i c s.rb s.buf.size → LinesInv ft s →
       (hsScanner (FLFlags.ofLevel lvl) fs).measure s < m → Safe i (k c s) ∧ (k c s).lvl = lvl)
-    (c : CM) (s0 : HS) (hl0 : Link i c s0.rb s0.buf.size) (hi0 : HSP.Inv s0)
+    (c : CM) (s0 : HS) (hl0 : Link i c s0.rb s0.buf.size) (hi0' : LinesInv ft s0)
     (hm0 : (hsScanner (FLFlags.ofLevel lvl) fs).measure s0 < m + 1) :
-    Safe i (hdrBody lvl fs k c s0) ∧ (hdrBody lvl fs k c s0).lvl = lvl := by
+    Safe i (hdrBody lvl fs ft k c s0) ∧ (hdrBody lvl fs ft k c s0).lvl = lvl := by
+  have hi0 := hi0'.1
   have L := HSP.hsLaws (FLFlags.ofLevel lvl) fs
   have ok := HSP.hsStep_ok (FLFlags.ofLevel lvl) fs s0 hi0
   unfold hdrBody
   cases hst : hsStep (FLFlags.ofLevel lvl) fs s0 with
-  | needMore => exact ⟨⟨hl0.setMem _, hi0⟩, rfl⟩
+  | needMore => exact ⟨linesPhase_safe i lvl _ ft s0 fs (hl0.setMem _) hi0', rfl⟩
   | fault f => exact absurd hst (L.no_fault s0 f hi0)
   | done d =>
     cases d with
     | err k =>
-      have := errorOut_safe i { cm := c, lvl := lvl, phase := .headers s0 fs } (.reply Http.codeBadRequest) _ hl0.recv
+      have := errorOut_safe i { cm := c, lvl := lvl, phase := linesPhase ft s0 fs } (.reply Http.codeBadRequest) _ hl0.recv
       exact ⟨this.1, this.2.1⟩
     | ok h =>
       obtain ⟨g1, g2, g3, g4⟩ := HSP.hsStep_done_shape _ fs s0 hi0 h hst
       obtain ⟨c1, hc, hl1, _, _⟩ := consumeTo_spec hl0 (h.rb + h.shifted) g2 g3
-      obtain ⟨c2, hc2, hr2, ho2, _, hinc2, _⟩ := shiftBack_spec hl1.recv h.shifted (by omega)
-      simp only [hc, hc2]
-      refine ⟨?_, by first | rfl | trivial⟩
-      show Link i (writeBack c2 h.buf) h.rb h.buf.size
-      apply Link.setMem
-      refine ⟨?_, ?_, by rw [hinc2]; exact hl1.inc⟩
-      · have e : h.rb + h.shifted - h.shifted = h.rb := by omega
-        rw [e] at hr2; exact hr2
-      · have := hl1.sz; rw [ho2]; omega
+      simp only [hc]
+      cases ft with
+      | none =>
+        obtain ⟨c2, hc2, hr2, ho2, _, hinc2, _⟩ := shiftBack_spec hl1.recv h.shifted (by omega)
+        simp only [hc2]
+        have hb := ((HSP.hsStep_inv2 _ fs s0 hi0 (hi0'.2 rfl)).2 h hst).1.1
+        refine ⟨⟨?_, hb⟩, by first | rfl | trivial⟩
+        show Link i (writeBack c2 h.buf) h.rb h.buf.size
+        apply Link.setMem
+        refine ⟨?_, ?_, by rw [hinc2]; exact hl1.inc⟩
+        · have e : h.rb + h.shifted - h.shifted = h.rb := by omega
+          rw [e] at hr2; exact hr2
+        · have := hl1.sz; rw [ho2]; omega
+      | some n =>
+        refine ⟨?_, by first | rfl | trivial⟩
+        show Link i (writeBack c1 s0.buf) (h.rb + h.shifted) s0.buf.size
+        exact hl1.setMem _
   | advance s1 =>
     obtain ⟨hi1, hsz, _⟩ := ok.adv s1 hst
+    have hi1' : LinesInv ft s1 := ⟨hi1, fun hf => (HSP.hsStep_inv2 _ fs s0 hi0 (hi0'.2 hf)).1 s1 hst⟩
     have hmono := (HSP.hsStep_mono _ fs s0 s1 hst).rb
     have hp1 := hi1.hp
     obtain ⟨c1, hc, hl1, _, _⟩ := consumeTo_spec hl0 s1.rb hmono (by omega)
@@ -200,68 +260,274 @@ theorem hdrBody_safe (i : Nat) (lvl : Int) (fs : Nat) (k : CM → HS → CR) (m 
         ⟨a.1, by rw [a.2.1]; exact hl1'.sz, by rw [a.2.2.2.1]; exact hl1'.inc⟩
       generalize step c1 (.alloc Mhd.Gen.ConnMem.reqHeaderSize) = res at hl2
       obtain ⟨c2, rr⟩ := res
-      have er := errorOut_safe i { cm := c2, lvl := lvl, phase := .headers s1 fs } .noSpace _ hl2.recv
+      have er := errorOut_safe i { cm := c2, lvl := lvl, phase := linesPhase ft s1 fs } .noSpace _ hl2.recv
       cases rr with
       | ptr o =>
         cases o with
-        | some v => exact hk c2 s1 hl2 hi1 (by omega)
+        | some v => exact hk c2 s1 hl2 hi1' (by omega)
         | none => exact ⟨er.1, er.2.1⟩
       | ok => exact ⟨er.1, er.2.1⟩
       | bool b => exact ⟨er.1, er.2.1⟩
       | size k => exact ⟨er.1, er.2.1⟩
       | badOp => exact ⟨er.1, er.2.1⟩
-    · exact hk c1 s1 hl1' hi1 (by omega)
+    · exact hk c1 s1 hl1' hi1' (by omega)
 
-theorem hdrLoop_safe (i : Nat) (lvl : Int) (fs : Nat) : ∀ (n : Nat) (c : CM) (s : HS), Link i c s.rb s.buf.size → HSP.Inv s →
-    (hsScanner (FLFlags.ofLevel lvl) fs).measure s < n →
-    Safe i (hdrLoop lvl fs n c s) ∧ (hdrLoop lvl fs n c s).lvl = lvl := by
+theorem hdrLoop_safe (i : Nat) (lvl : Int) (fs : Nat) (ft : Option Rq) : ∀ (n : Nat) (c : CM) (s : HS),
+    Link i c s.rb s.buf.size → LinesInv ft s → (hsScanner (FLFlags.ofLevel lvl) fs).measure s < n →
+    Safe i (hdrLoop lvl fs ft n c s) ∧ (hdrLoop lvl fs ft n c s).lvl = lvl := by
   intro n
   induction n with
   | zero => intro c s _ _ hm; omega
   | succ n ih =>
     intro c s hl hi hm
-    exact hdrBody_safe i lvl fs (hdrLoop lvl fs n) n ih c { s with rbSize := c.rbSize } hl (inv_rbSize hi _) hm
+    exact hdrBody_safe i lvl fs ft (hdrLoop lvl fs ft n) n ih c { s with rbSize := c.rbSize } hl
+      ⟨inv_rbSize hi.1 _, fun hf => inv2_rbSize (hi.2 hf) _⟩ hm
 
-theorem idleHeaders_safe (i : Nat) (x : CR) (s : HS) (fs : Nat) (hl : Link i x.cm s.rb s.buf.size) (hi : HSP.Inv s) :
-    Safe i (idleHeaders x s fs) ∧ (idleHeaders x s fs).lvl = x.lvl :=
-  hdrLoop_safe i x.lvl fs _ x.cm s hl hi (Nat.lt_succ_self _)
 
-theorem idleStates_safe (i : Nat) (x : CR) (h : Safe i x) : Safe i (idleStates x) ∧ (idleStates x).lvl = x.lvl := by
-  unfold idleStates
-  unfold Safe at h
-  cases hp : x.phase with
-  | reqLine s =>
-    rw [hp] at h
-    have h1 := idleReqLine_safe i x s h.1 h.2
+theorem idleHeaders_safe (i : Nat) (x : CR) (s : HS) (fs : Nat) (hl : Link i x.cm s.rb s.buf.size) (hi : HSP.Inv s)
+    (hi2 : HSP.Inv2 s) : Safe i (idleHeaders x s fs) ∧ (idleHeaders x s fs).lvl = x.lvl :=
+  hdrLoop_safe i x.lvl fs none _ x.cm s hl ⟨hi, fun _ => hi2⟩ (Nat.lt_succ_self _)
+
+theorem idleFooters_safe (i : Nat) (x : CR) (s : HS) (n : Rq) (hl : Link i x.cm s.rb s.buf.size) (hi : HSP.Inv s) :
+    Safe i (idleFooters x s n) ∧ (idleFooters x s n).lvl = x.lvl :=
+  hdrLoop_safe i x.lvl 0 (some n) _ x.cm s hl ⟨hi, fun hf => by cases hf⟩ (Nat.lt_succ_self _)
+
+/-! ### request body -/
+
+theorem blres_ok (w : List UInt8) (s : BL) (hs : s.head ≤ w.length) :
+    (∀ n, BLRes.ok s ≠ .overrun n) ∧ (∀ s', BLRes.ok s = .ok s' → s'.head ≤ w.length) :=
+  ⟨fun n h => (by cases h), fun s' h => (by simp only [BLRes.ok.injEq] at h; subst h; exact hs)⟩
+
+theorem blres_err (w : List UInt8) (st : Nat) :
+    (∀ n, BLRes.err st ≠ .overrun n) ∧ (∀ s', BLRes.err st = .ok s' → s'.head ≤ w.length) :=
+  ⟨fun n h => (by cases h), fun s' h => (by cases h)⟩
+
+/-- the body loop never claims more bytes than the window holds: every decision of the chunk decoder
+    consumes at most the available bytes (C03: `chunkAct_term`, `chunkAct_line`, `chunkAct_data`) -/
+theorem bodyLoop_ok (lvl : Int) (take : Nat → Nat → Nat) (chunked : Bool) (w : List UInt8) :
+    ∀ (f : Nat) (s : BL), s.head ≤ w.length →
+      (∀ n, bodyLoop lvl take chunked w f s ≠ .overrun n) ∧
+      (∀ s', bodyLoop lvl take chunked w f s = .ok s' → s'.head ≤ w.length) := by
+  intro f
+  induction f with
+  | zero =>
+    intro s hs
+    simp only [bodyLoop]
+    exact blres_ok w s hs
+  | succ f ih =>
+    intro s hs
+    have hbl : (w.drop s.head).length = w.length - s.head := by simp
+    simp only [bodyLoop]
+    split
+    · exact blres_ok w s hs
+    · split
+      · -- chunked
+        cases hact : Mhd.Framing.chunkAct lvl s.cur s.off (w.drop s.head) with
+        | needMore => dsimp only; exact blres_ok w s hs
+        | err st => dsimp only; exact blres_err w st
+        | term n =>
+          have hb := (Mhd.Framing.chunkAct_term lvl s.cur s.off _ n hact).2.1
+          dsimp only
+          rw [if_pos hb]
+          exact ih _ (by show s.head + n ≤ w.length; omega)
+        | line len size =>
+          have hb := (Mhd.Framing.chunkAct_line lvl s.cur s.off _ len size hact).2
+          dsimp only
+          rw [if_pos hb]
+          split
+          · exact blres_ok w _ (by show s.head + len ≤ w.length; omega)
+          · exact ih _ (by show s.head + len ≤ w.length; omega)
+        | data n =>
+          have hb : n ≤ (w.drop s.head).length := by
+            rw [(Mhd.Framing.chunkAct_data lvl s.cur s.off _ n hact).2.2.2]; exact Nat.min_le_right _ _
+          dsimp only
+          rw [if_pos hb]
+          have ht : min n (take s.calls n) ≤ n := Nat.min_le_left _ _
+          split
+          · exact blres_ok w _ (by show s.head + min n (take s.calls n) ≤ w.length; omega)
+          · exact ih _ (by show s.head + min n (take s.calls n) ≤ w.length; omega)
+      · -- identity
+        have : min (min s.remaining (w.drop s.head).length) (take s.calls (min s.remaining (w.drop s.head).length))
+            ≤ (w.drop s.head).length := Nat.le_trans (Nat.min_le_left _ _) (Nat.min_le_right _ _)
+        exact blres_ok w _ (by
+          show s.head + min (min s.remaining (w.drop s.head).length) _ ≤ w.length
+          omega)
+
+theorem processBody_safe (i : Nat) (cfg : Cfg) (x : CR) (b : Body) (hl : Link i x.cm b.rb b.buf.size)
+    (hq : RqOk b.rb b.rq) : Safe i (processBody cfg x b) ∧ (processBody cfg x b).lvl = x.lvl := by
+  unfold processBody
+  have hsz := hl.sz
+  have hwl : ((b.buf.extract b.rb b.buf.size).toList).length = x.cm.rbOff := by
+    simp only [Array.length_toList, Array.size_extract]; omega
+  have bl := bodyLoop_ok x.lvl cfg.take b.chunked (b.buf.extract b.rb b.buf.size).toList
+    ((b.buf.extract b.rb b.buf.size).toList.length + 1) ⟨b.cur, b.off, b.remaining, b.calls, b.processed, 0⟩ (Nat.zero_le _)
+  dsimp only
+  cases hr : bodyLoop x.lvl cfg.take b.chunked (b.buf.extract b.rb b.buf.size).toList
+      ((b.buf.extract b.rb b.buf.size).toList.length + 1) ⟨b.cur, b.off, b.remaining, b.calls, b.processed, 0⟩ with
+  | overrun n => exact absurd hr (bl.1 n)
+  | err st => exact ⟨(errorOut_safe i x _ _ hl.recv).1, (errorOut_safe i x _ _ hl.recv).2.1⟩
+  | ok s =>
+    have hh := bl.2 s hr
+    rw [hwl] at hh
+    obtain ⟨c1, hc, hr1, ho1, _, hinc1, _⟩ := bodyDrop_spec hl.recv s.head hh
+    simp only [hc]
+    refine ⟨⟨?_, hq⟩, by first | rfl | trivial⟩
+    apply Link.setMem
+    refine ⟨hr1, ?_, by rw [hinc1]; exact hl.inc⟩
+    show (b.buf.extract 0 b.rb ++ b.buf.extract (b.rb + s.head) b.buf.size).size = b.rb + c1.rbOff
+    simp only [Array.size_append, Array.size_extract]
+    rw [ho1]; omega
+
+theorem idleBody_safe (i : Nat) (cfg : Cfg) (x : CR) (b : Body) (hl : Link i x.cm b.rb b.buf.size)
+    (hq : RqOk b.rb b.rq) (hp : x.phase = .body b) : Safe i (idleBody cfg x b) ∧ (idleBody cfg x b).lvl = x.lvl := by
+  unfold idleBody
+  have h1 : Safe i (if x.cm.rbOff ≠ 0 then processBody cfg x b else x) ∧
+      (if x.cm.rbOff ≠ 0 then processBody cfg x b else x).lvl = x.lvl := by
+    split
+    · exact processBody_safe i cfg x b hl hq
+    · exact ⟨by unfold Safe; rw [hp]; exact ⟨hl, hq⟩, rfl⟩
+  generalize (if x.cm.rbOff ≠ 0 then processBody cfg x b else x) = x1 at h1
+  dsimp only
+  cases hp1 : x1.phase with
+  | body b1 =>
+    have h1s := h1.1
+    unfold Safe at h1s
+    rw [hp1] at h1s
     dsimp only
-    cases hp1 : (idleReqLine x s).phase with
-    | headers hs fs =>
-      dsimp only
-      have h1s := h1.1
-      unfold Safe at h1s
-      rw [hp1] at h1s
-      have := idleHeaders_safe i (idleReqLine x s) hs fs h1s.1 h1s.2
-      exact ⟨this.1, by rw [this.2, h1.2]⟩
-    | reqLine _ => exact h1
-    | headersDone _ => exact h1
-    | error _ => exact h1
-    | fault _ => exact h1
-    | refused _ => exact h1
-  | headers hs fs =>
-    rw [hp] at h
-    exact idleHeaders_safe i x hs fs h.1 h.2
-  | headersDone _ => exact ⟨by unfold Safe; rw [hp]; rw [hp] at h; exact h, rfl⟩
-  | error _ => exact ⟨by unfold Safe; rw [hp]; rw [hp] at h; exact h, rfl⟩
-  | fault _ => rw [hp] at h; exact absurd h (by simp [PhaseInv])
-  | refused _ => rw [hp] at h; exact absurd h (by simp [PhaseInv])
+    split
+    · split
+      · refine ⟨⟨h1s.1, ?_⟩, h1.2⟩
+        have hv : b1.rq.version + Discipline.httpVerLen + 1 ≤ b1.rb := h1s.2
+        have hsz := h1s.1.sz
+        exact ⟨by show b1.rb + 0 ≤ b1.buf.size; omega, by show 1 ≤ b1.rb; omega, Nat.le_refl _, Nat.le_refl _,
+          Nat.le_refl _, hv, fun el hm => by cases hm⟩
+      · exact ⟨h1s.1, h1.2⟩
+    · exact h1
+  | reqLine _ => exact h1
+  | headers _ _ => exact h1
+  | headersDone _ _ => exact h1
+  | footers _ _ => exact h1
+  | reqDone _ _ _ => exact h1
+  | error _ => exact h1
+  | fault _ => exact h1
+  | refused _ => exact h1
 
-/-- the window of a reading connection -/
+theorem afterHeaders_safe (i : Nat) (cfg : Cfg) (x : CR) (h : Headers) (rq : Rq) (hl : Link i x.cm h.rb h.buf.size)
+    (hq : RqOk h.rb rq) (hp : x.phase = .headersDone h rq) :
+    Safe i (afterHeaders cfg x h rq) ∧ (afterHeaders cfg x h rq).lvl = x.lvl := by
+  unfold afterHeaders
+  cases cfg.frame h.buf rq with
+  | stop => exact ⟨by unfold Safe; rw [hp]; exact ⟨hl, hq⟩, rfl⟩
+  | reject code => exact ⟨(errorOut_safe i x _ _ hl.recv).1, (errorOut_safe i x _ _ hl.recv).2.1⟩
+  | none => exact ⟨hl, rfl⟩
+  | len n =>
+    dsimp only
+    split
+    · exact ⟨hl, rfl⟩
+    · exact ⟨⟨hl, hq⟩, rfl⟩
+  | chunked => exact ⟨⟨hl, hq⟩, rfl⟩
+
+theorem finishRequest_safe (i : Nat) (x : CR) (buf : Bytes) (rb : Nat) (hl : Link i x.cm rb buf.size) :
+    Safe i (finishRequest x buf rb).1 ∧ (finishRequest x buf rb).1.lvl = x.lvl := by
+  unfold finishRequest
+  obtain ⟨c1, c2, h1, h2, hr, ho, hinc⟩ := shrink_reset_spec hl.recv
+  simp only [h1, h2]
+  refine ⟨⟨?_, RLInvX.init _ _ _ (Nat.zero_le _)⟩, by first | rfl | trivial⟩
+  apply Link.setMem
+  refine ⟨hr, ?_, by rw [hinc]; exact hl.inc⟩
+  show (buf.extract rb buf.size).size = 0 + c2.rbOff
+  have := hl.sz
+  simp only [Array.size_extract]; rw [ho]; omega
+
+theorem stLine_safe (i : Nat) (x : CR) (h : Safe i x) : Safe i (stLine x) ∧ (stLine x).lvl = x.lvl := by
+  unfold stLine
+  have h' := h; unfold Safe at h'
+  cases hp : x.phase with
+  | reqLine s => rw [hp] at h'; exact idleReqLine_safe i x s h'.1 h'.2
+  | _ => exact ⟨h, rfl⟩
+
+theorem stHeaders_safe (i : Nat) (x : CR) (h : Safe i x) : Safe i (stHeaders x) ∧ (stHeaders x).lvl = x.lvl := by
+  unfold stHeaders
+  have h' := h; unfold Safe at h'
+  cases hp : x.phase with
+  | headers hs fs => rw [hp] at h'; exact idleHeaders_safe i x hs fs h'.1 h'.2.1 h'.2.2
+  | _ => exact ⟨h, rfl⟩
+
+theorem stAfter_safe (i : Nat) (cfg : Cfg) (x : CR) (h : Safe i x) : Safe i (stAfter cfg x) ∧ (stAfter cfg x).lvl = x.lvl := by
+  unfold stAfter
+  have h' := h; unfold Safe at h'
+  cases hp : x.phase with
+  | headersDone hd rq => rw [hp] at h'; exact afterHeaders_safe i cfg x hd rq h'.1 h'.2 hp
+  | _ => exact ⟨h, rfl⟩
+
+theorem stBody_safe (i : Nat) (cfg : Cfg) (x : CR) (h : Safe i x) : Safe i (stBody cfg x) ∧ (stBody cfg x).lvl = x.lvl := by
+  unfold stBody
+  have h' := h; unfold Safe at h'
+  cases hp : x.phase with
+  | body b => rw [hp] at h'; exact idleBody_safe i cfg x b h'.1 h'.2 hp
+  | _ => exact ⟨h, rfl⟩
+
+theorem stFooters_safe (i : Nat) (x : CR) (h : Safe i x) : Safe i (stFooters x) ∧ (stFooters x).lvl = x.lvl := by
+  unfold stFooters
+  have h' := h; unfold Safe at h'
+  cases hp : x.phase with
+  | footers s n => rw [hp] at h'; exact idleFooters_safe i x s n h'.1 h'.2
+  | _ => exact ⟨h, rfl⟩
+
+theorem stDone_safe (i : Nat) (cfg : Cfg) (x : CR) (h : Safe i x) : Safe i (stDone cfg x).1 ∧ (stDone cfg x).1.lvl = x.lvl := by
+  unfold stDone
+  have h' := h; unfold Safe at h'
+  cases hp : x.phase with
+  | reqDone buf rb rq =>
+    rw [hp] at h'
+    dsimp only
+    split
+    · exact finishRequest_safe i x buf rb h'
+    · exact ⟨h'.recv.inv, rfl⟩
+  | _ => exact ⟨h, rfl⟩
+
+theorem idlePass_safe (i : Nat) (cfg : Cfg) (x : CR) (h : Safe i x) :
+    Safe i (idlePass cfg x).1 ∧ (idlePass cfg x).1.lvl = x.lvl := by
+  unfold idlePass
+  have s1 := stLine_safe i x h
+  have s2 := stHeaders_safe i _ s1.1
+  have s3 := stAfter_safe i cfg _ s2.1
+  have s4 := stBody_safe i cfg _ s3.1
+  have s5 := stFooters_safe i _ s4.1
+  have s6 := stDone_safe i cfg _ s5.1
+  exact ⟨s6.1, by rw [s6.2, s5.2, s4.2, s3.2, s2.2, s1.2]⟩
+
+theorem idleStates_safe (i : Nat) (cfg : Cfg) : ∀ (n : Nat) (x : CR), Safe i x →
+    Safe i (idleStates cfg n x) ∧ (idleStates cfg n x).lvl = x.lvl := by
+  intro n
+  induction n with
+  | zero => intro x h; exact ⟨h, rfl⟩
+  | succ n ih =>
+    intro x h
+    have hp := idlePass_safe i cfg x h
+    simp only [idleStates]
+    generalize idlePass cfg x = res at hp
+    obtain ⟨x', b⟩ := res
+    cases b with
+    | true => have := ih x' hp.1; exact ⟨this.1, by rw [this.2, hp.2]⟩
+    | false => exact hp
+
+
+/-- the window of a connection in one of the receiving states -/
 theorem reading_link {i : Nat} {x : CR} (h : Safe i x) (hr : x.reading = true) : ∃ r size, Link i x.cm r size := by
   unfold Safe at h
   cases hp : x.phase <;> rw [hp] at h <;> simp only [CR.reading, hp] at hr
   · exact ⟨_, _, h.1⟩
   · exact ⟨_, _, h.1⟩
+  · cases hr
+  · exact ⟨_, _, h.1⟩
+  · exact ⟨_, _, h.1⟩
   all_goals cases hr
+
+theorem wantsRead_reading {x : CR} (h : x.wantsRead = true) : x.reading = true := by
+  unfold CR.wantsRead at h
+  unfold CR.reading
+  cases hp : x.phase <;> rw [hp] at h <;> first | rfl | cases h
 
 theorem safe_setCm {i : Nat} {x : CR} (h : Safe i x) (hr : x.reading = true) (c' : CM)
     (hc : ∀ r size, Link i x.cm r size → Link i c' r size) : Safe i { x with cm := c' } := by
@@ -269,88 +535,101 @@ theorem safe_setCm {i : Nat} {x : CR} (h : Safe i x) (hr : x.reading = true) (c'
   cases hp : x.phase <;> rw [hp] at h <;> simp only [CR.reading, hp] at hr
   · exact ⟨hc _ _ h.1, h.2⟩
   · exact ⟨hc _ _ h.1, h.2⟩
+  · cases hr
+  · exact ⟨hc _ _ h.1, h.2⟩
+  · exact ⟨hc _ _ h.1, h.2⟩
   all_goals cases hr
 
-theorem checkGrow_eq_of_not_reading (x : CR) (h : x.reading = false) : checkGrow x = x := by
+theorem checkGrow_eq_of_not_wantsRead (x : CR) (h : x.wantsRead = false) : checkGrow x = x := by
   unfold checkGrow; simp [h]
 
-/-- `check_and_grow_read_buffer_space`: safe, and afterwards a connection that still wants to
-    read has room in its window (unless `pool_increment` is 1 … 7, see `growSize_strict`) -/
+theorem noSpaceOut_safe (i : Nat) (x : CR) (h : Safe i x) (hr : x.reading = true) :
+    Safe i (noSpaceOut x) ∧ (noSpaceOut x).lvl = x.lvl ∧ (noSpaceOut x).wantsRead = false := by
+  obtain ⟨r, size, hl⟩ := reading_link h hr
+  have er := errorOut_safe i x .noSpace _ hl.recv
+  have ern : (errorOut x .noSpace).wantsRead = false := by
+    cases hh : (errorOut x .noSpace).wantsRead with
+    | false => rfl
+    | true => have := wantsRead_reading hh; rw [er.2.2] at this; cases this
+  unfold noSpaceOut
+  cases hp : x.phase with
+  | body b =>
+    dsimp only
+    split
+    · refine ⟨?_, rfl, rfl⟩
+      have h' := h; unfold Safe at h' ⊢; rw [hp] at h'; exact h'
+    · exact ⟨er.1, er.2.1, ern⟩
+  | _ => exact ⟨er.1, er.2.1, ern⟩
+
+/-- `check_and_grow_read_buffer_space`: safe, and afterwards a connection that will read has room in its
+    window (rests on the guard of fix F32, see `growSize_strict`) -/
 theorem checkGrow_safe (i : Nat) (x : CR) (h : Safe i x) :
     Safe i (checkGrow x) ∧ (checkGrow x).lvl = x.lvl ∧
-    ((checkGrow x).reading = true → (checkGrow x).cm.rbOff < (checkGrow x).cm.rbSize) := by
-  by_cases hr : x.reading = true
-  · obtain ⟨r, size, hl⟩ := reading_link h hr
+    ((checkGrow x).wantsRead = true → (checkGrow x).cm.rbOff < (checkGrow x).cm.rbSize) := by
+  by_cases hw : x.wantsRead = true
+  · have hr := wantsRead_reading hw
+    obtain ⟨r, size, hl⟩ := reading_link h hr
     have hle := hl.recv.off_le
-    have hinc := hl.inc
-    by_cases hd : ((x.cm.rbOff == x.cm.rbSize) || decide (x.cm.rbOff + x.cm.inc > x.cm.rbSize)) = true
-    · have g := grow_spec hl.recv (x.cm.rbOff == x.cm.rbSize)
+    unfold checkGrow
+    rw [if_neg (by rw [hw]; simp)]
+    dsimp only
+    by_cases hd : (x.cm.rbOff == x.cm.rbSize || (decide (x.cm.rbOff + x.cm.inc > x.cm.rbSize) && growRefine x)) = true
+    · rw [if_neg (by rw [hd]; simp)]
+      have g := grow_spec hl.recv (x.cm.rbOff == x.cm.rbSize)
       generalize hst : step x.cm (.grow (x.cm.rbOff == x.cm.rbSize)) = res at g
       obtain ⟨c', rr⟩ := res
       obtain ⟨g1, g2, g3, g4, g5, g6, g7⟩ := g
+      dsimp only at g1 g2 g3 g4 g5 g6 g7
       have hs' : Safe i { x with cm := c' } :=
         safe_setCm h hr c' (fun r' size' hl' => by
           have e : r' = r := by have := hl'.recv.rb; rw [hl.recv.rb] at this; exact (Option.some.inj this).symm
           subst e
           exact ⟨g1, by rw [g2]; exact hl'.sz, by rw [g4]; exact hl'.inc⟩)
       rcases g6 with e | ⟨e, ec⟩
-      · dsimp only at e; subst e
-        have ee : checkGrow x = { x with cm := c' } := by
-          unfold checkGrow
-          rw [if_neg (by rw [hr]; simp)]
-          dsimp only
-          rw [if_neg (by rw [hd]; simp), hst]
-        rw [ee]
-        refine ⟨hs', rfl, ?_⟩
-        intro _
+      · subst e
+        dsimp only
+        refine ⟨hs', rfl, fun _ => ?_⟩
         by_cases hf : x.cm.rbOff = x.cm.rbSize
         · exact g7 rfl hf
-        · show c'.rbOff < c'.rbSize
-          dsimp only at g2 g3; omega
-      · dsimp only at e ec; subst e; subst ec
-        by_cases hq : (x.cm.rbOff == x.cm.rbSize) = true
-        · have ee : checkGrow x = errorOut x .noSpace := by
-            unfold checkGrow
-            rw [if_neg (by rw [hr]; simp)]
-            dsimp only
-            rw [if_neg (by rw [hd]; simp), hst]
-            dsimp only
-            rw [if_neg (by rw [hq]; simp)]
-          rw [ee]
-          have er := errorOut_safe i x .noSpace _ hl.recv
-          refine ⟨er.1, er.2.1, ?_⟩
-          intro hrd; rw [er.2.2] at hrd; cases hrd
-        · have ee : checkGrow x = x := by
-            unfold checkGrow
-            rw [if_neg (by rw [hr]; simp)]
-            dsimp only
-            rw [if_neg (by rw [hd]; simp), hst]
-            dsimp only
-            rw [if_pos (by simpa using hq)]
-          rw [ee]
-          refine ⟨h, rfl, ?_⟩
-          intro _
-          simp only [beq_iff_eq] at hq
-          omega
-    · have ee : checkGrow x = x := by
-        unfold checkGrow
-        rw [if_neg (by rw [hr]; simp)]
+        · show c'.rbOff < c'.rbSize; omega
+      · subst e; subst ec
         dsimp only
-        rw [if_pos (by simpa using hd)]
-      rw [ee]
-      refine ⟨h, rfl, ?_⟩
-      intro _
-      simp only [Bool.or_eq_true, beq_iff_eq, decide_eq_true_eq, not_or] at hd
-      omega
-  · have hr' : x.reading = false := by cases hx : x.reading <;> simp_all
-    rw [checkGrow_eq_of_not_reading x hr']
-    exact ⟨h, rfl, fun hh => by rw [hr'] at hh; cases hh⟩
+        by_cases hq : (x.cm.rbOff == x.cm.rbSize) = true
+        · rw [if_neg (by rw [hq]; simp)]
+          have := noSpaceOut_safe i { x with cm := x.cm } hs' hr
+          exact ⟨this.1, this.2.1, fun hh => by rw [this.2.2] at hh; cases hh⟩
+        · rw [if_pos (by simpa using hq)]
+          refine ⟨hs', rfl, fun _ => ?_⟩
+          simp only [beq_iff_eq] at hq
+          show x.cm.rbOff < x.cm.rbSize; omega
+    · have hd' : (x.cm.rbOff == x.cm.rbSize || (decide (x.cm.rbOff + x.cm.inc > x.cm.rbSize) && growRefine x)) = false := by
+        cases hx : (x.cm.rbOff == x.cm.rbSize || (decide (x.cm.rbOff + x.cm.inc > x.cm.rbSize) && growRefine x)) with
+        | false => rfl
+        | true => exact absurd hx hd
+      rw [if_pos (by rw [hd']; rfl)]
+      refine ⟨h, rfl, fun _ => ?_⟩
+      simp only [Bool.or_eq_false_iff, beq_eq_false_iff_ne] at hd'
+      have := hd'.1; omega
+  · have hw' : x.wantsRead = false := by cases hx : x.wantsRead <;> simp_all
+    rw [checkGrow_eq_of_not_wantsRead x hw']
+    exact ⟨h, rfl, fun hh => by rw [hw'] at hh; cases hh⟩
 
-theorem idle_safe (i : Nat) (x : CR) (h : Safe i x) :
-    Safe i (idle x) ∧ (idle x).lvl = x.lvl ∧
-    ((idle x).reading = true → (idle x).cm.rbOff < (idle x).cm.rbSize) := by
-  have h1 := idleStates_safe i x h
-  have h2 := checkGrow_safe i (idleStates x) h1.1
+theorem updateEv_safe (i : Nat) (x : CR) (h : Safe i x) :
+    Safe i (updateEv x) ∧ (updateEv x).lvl = x.lvl ∧
+    ((updateEv x).wantsRead = true → (updateEv x).cm.rbOff < (updateEv x).cm.rbSize) := by
+  unfold updateEv
+  cases hp : x.phase with
+  | body b =>
+    dsimp only
+    apply checkGrow_safe
+    have h' := h; unfold Safe at h' ⊢; rw [hp] at h'; exact h'
+  | _ => exact checkGrow_safe i x h
+
+theorem idle_safe (i : Nat) (cfg : Cfg) (x : CR) (h : Safe i x) :
+    Safe i (idle cfg x) ∧ (idle cfg x).lvl = x.lvl ∧
+    ((idle cfg x).wantsRead = true → (idle cfg x).cm.rbOff < (idle cfg x).cm.rbSize) := by
+  have h1 := idleStates_safe i cfg (x.cm.rbOff + 2) x h
+  have h2 := updateEv_safe i _ h1.1
   unfold idle
   exact ⟨h2.1, by rw [h2.2.1, h1.2], h2.2.2⟩
 
@@ -379,19 +658,32 @@ theorem recvBytes_safe (i : Nat) (x : CR) (e : List UInt8) (h : Safe i x) (hr : 
     rw [Array.size_append]; simpa using this
   | headers s fs =>
     rw [hp] at h
+    refine ⟨?_, h.2.1.ext _, h.2.2.ext _⟩
+    have := key _ _ h.1
+    show Link i _ s.rb (s.buf ++ e.toArray).size
+    rw [Array.size_append]; simpa using this
+  | body b =>
+    rw [hp] at h
+    refine ⟨?_, h.2⟩
+    have := key _ _ h.1
+    show Link i _ b.rb (b.buf ++ e.toArray).size
+    rw [Array.size_append]; simpa using this
+  | footers s n =>
+    rw [hp] at h
     refine ⟨?_, h.2.ext _⟩
     have := key _ _ h.1
     show Link i _ s.rb (s.buf ++ e.toArray).size
     rw [Array.size_append]; simpa using this
-  | headersDone _ => simp only [CR.reading, hp] at hr; cases hr
+  | headersDone _ _ => simp only [CR.reading, hp] at hr; cases hr
+  | reqDone _ _ _ => simp only [CR.reading, hp] at hr; cases hr
   | error _ => simp only [CR.reading, hp] at hr; cases hr
   | fault _ => simp only [CR.reading, hp] at hr; cases hr
   | refused _ => simp only [CR.reading, hp] at hr; cases hr
 
-theorem feedFuel_safe (i : Nat) : ∀ (n : Nat) (x : CR) (bs : List UInt8), Safe i x →
-    Safe i (feedFuel n x bs) ∧ (feedFuel n x bs).lvl = x.lvl ∧
-    ((x.reading = true → x.cm.rbOff < x.cm.rbSize) →
-      (feedFuel n x bs).reading = true → (feedFuel n x bs).cm.rbOff < (feedFuel n x bs).cm.rbSize) := by
+theorem feedFuel_safe (i : Nat) (cfg : Cfg) : ∀ (n : Nat) (x : CR) (bs : List UInt8), Safe i x →
+    Safe i (feedFuel cfg n x bs) ∧ (feedFuel cfg n x bs).lvl = x.lvl ∧
+    ((x.wantsRead = true → x.cm.rbOff < x.cm.rbSize) →
+      (feedFuel cfg n x bs).wantsRead = true → (feedFuel cfg n x bs).cm.rbOff < (feedFuel cfg n x bs).cm.rbSize) := by
   intro n
   induction n with
   | zero => intro x bs h; exact ⟨h, rfl, fun hx => hx⟩
@@ -401,13 +693,30 @@ theorem feedFuel_safe (i : Nat) : ∀ (n : Nat) (x : CR) (bs : List UInt8), Safe
     split
     · exact ⟨h, rfl, fun hx => hx⟩
     · rename_i hc
-      simp only [Bool.or_eq_true, Bool.not_eq_true', not_or, beq_iff_eq] at hc
       have hr : x.reading = true := by cases hx : x.reading <;> simp_all
-      have h1 := recvBytes_safe i x (bs.take (min bs.length x.space)) h hr
-        (by rw [List.length_take]; omega)
-      have h2 := idle_safe i _ h1.1
-      have h3 := ih (idle (recvBytes x (bs.take (min bs.length x.space)))) (bs.drop (min bs.length x.space)) h2.1
-      exact ⟨h3.1, by rw [h3.2.1, h2.2.1, h1.2], fun _ => h3.2.2 h2.2.2⟩
+      split
+      · rename_i hc2
+        simp only [Bool.and_eq_true, bne_iff_ne, ne_eq] at hc2
+        have h1 := recvBytes_safe i x (bs.take (min bs.length x.space)) h hr
+          (by rw [List.length_take]; omega)
+        have h2 := idle_safe i cfg _ h1.1
+        have h3 := ih (idle cfg (recvBytes x (bs.take (min bs.length x.space)))) (bs.drop (min bs.length x.space)) h2.1
+        exact ⟨h3.1, by rw [h3.2.1, h2.2.1, h1.2], fun _ => h3.2.2 h2.2.2⟩
+      · have h2 := idle_safe i cfg x h
+        have h3 := ih (idle cfg x) bs h2.1
+        exact ⟨h3.1, by rw [h3.2.1, h2.2.1], fun _ => h3.2.2 h2.2.2⟩
+
+theorem feed_safe (i : Nat) (cfg : Cfg) (x : CR) (c : List UInt8) (h : Safe i x) :
+    Safe i (feed cfg x c) ∧ (feed cfg x c).lvl = x.lvl ∧
+    ((x.wantsRead = true → x.cm.rbOff < x.cm.rbSize) →
+      (feed cfg x c).wantsRead = true → (feed cfg x c).cm.rbOff < (feed cfg x c).cm.rbSize) := by
+  unfold feed
+  split
+  · split
+    · have := idle_safe i cfg x h
+      exact ⟨this.1, this.2.1, fun _ => this.2.2⟩
+    · exact ⟨h, rfl, fun hx => hx⟩
+  · exact feedFuel_safe i cfg _ x c h
 
 theorem init_safe (allocSize poolSize inc : Nat) (lvl : Int) (ha : allocSize % Mhd.Pool.A = 0)
     (hs : allocSize < 2 ^ 62) (hp : poolSize ≤ allocSize) : Safe inc (init allocSize poolSize inc lvl) := by
@@ -418,23 +727,23 @@ theorem init_safe (allocSize poolSize inc : Nat) (lvl : Int) (ha : allocSize % M
   rw [f.2.1]; rfl
 
 /-- invariant of every run: all chunk lists -/
-theorem run_safe (i : Nat) (chunks : List (List UInt8)) : ∀ (x : CR), Safe i x → Safe i (run x chunks) := by
+theorem run_safe (i : Nat) (cfg : Cfg) (chunks : List (List UInt8)) : ∀ (x : CR), Safe i x → Safe i (run cfg x chunks) := by
   induction chunks with
   | nil => intro x h; exact h
   | cons c cs ih =>
     intro x h
-    exact ih (feed x c) (feedFuel_safe i (c.length + 1) x c h).1
+    exact ih (feed cfg x c) (feed_safe i cfg x c h).1
 
-/-- a connection that still wants to read has room in its window -/
-theorem run_live (i : Nat) (chunks : List (List UInt8)) : ∀ (x : CR), Safe i x →
-    (x.reading = true → x.cm.rbOff < x.cm.rbSize) →
-    (run x chunks).reading = true → (run x chunks).cm.rbOff < (run x chunks).cm.rbSize := by
+/-- a connection that will read has room in its window -/
+theorem run_live (i : Nat) (cfg : Cfg) (chunks : List (List UInt8)) : ∀ (x : CR), Safe i x →
+    (x.wantsRead = true → x.cm.rbOff < x.cm.rbSize) →
+    (run cfg x chunks).wantsRead = true → (run cfg x chunks).cm.rbOff < (run cfg x chunks).cm.rbSize := by
   induction chunks with
   | nil => intro x _ hx; exact hx
   | cons c cs ih =>
     intro x h hx
-    have h1 := feedFuel_safe i (c.length + 1) x c h
-    exact ih (feed x c) h1.1 (h1.2.2 hx)
+    have h1 := feed_safe i cfg x c h
+    exact ih (feed cfg x c) h1.1 (h1.2.2 hx)
 
 theorem safe_not_faulty {i : Nat} {x : CR} (h : Safe i x) :
     (∀ f, x.phase ≠ .fault f) ∧ (∀ n, x.phase ≠ .refused n) := by
@@ -443,26 +752,32 @@ theorem safe_not_faulty {i : Nat} {x : CR} (h : Safe i x) :
   · intro f hp; rw [hp] at h; exact h
   · intro n hp; rw [hp] at h; exact h
 
+/-- the buffer of a phase (arena prefix up to the end of the received data) and its `read_buffer` -/
+def Phase.view? : Phase → Option (Bytes × Nat)
+  | .reqLine s => some (s.buf, s.rb)
+  | .headers s _ => some (s.buf, s.rb)
+  | .headersDone h _ => some (h.buf, h.rb)
+  | .body b => some (b.buf, b.rb)
+  | .footers s _ => some (s.buf, s.rb)
+  | .reqDone buf rb _ => some (buf, rb)
+  | _ => none
+
 /-- the buffer handed to the parsers is the arena prefix up to the end of the received data:
     it ends inside the read window, which lies inside the arena -/
-theorem safe_view {i : Nat} {x : CR} (h : Safe i x) (hr : x.reading = true) :
-    ∃ r, x.cm.rb = some r ∧ x.cm.rbBase = 0 ∧ x.cm.rbOff ≤ x.cm.rbSize ∧ r + x.cm.rbSize ≤ x.cm.p.pos ∧
-      x.cm.p.pos ≤ x.cm.p.size ∧
-      (match x.phase with
-       | .reqLine s => s.rb = r ∧ s.buf.size = r + x.cm.rbOff
-       | .headers s _ => s.rb = r ∧ s.buf.size = r + x.cm.rbOff
-       | _ => True) := by
+theorem safe_view {i : Nat} {x : CR} (h : Safe i x) (buf : Bytes) (r : Nat) (hv : x.phase.view? = some (buf, r)) :
+    x.cm.rb = some r ∧ x.cm.rbBase = 0 ∧ buf.size = r + x.cm.rbOff ∧ x.cm.rbOff ≤ x.cm.rbSize ∧
+      r + x.cm.rbSize ≤ x.cm.p.pos ∧ x.cm.p.pos ≤ x.cm.p.size := by
+  have key : ∀ {r size}, Link i x.cm r size → x.cm.rb = some r ∧ x.cm.rbBase = 0 ∧ size = r + x.cm.rbOff ∧
+      x.cm.rbOff ≤ x.cm.rbSize ∧ r + x.cm.rbSize ≤ x.cm.p.pos ∧ x.cm.p.pos ≤ x.cm.p.size :=
+    fun hl => ⟨hl.recv.rb, hl.recv.base, hl.sz, hl.recv.off_le, hl.recv.inside.1, hl.recv.inside.2⟩
   unfold Safe at h
-  cases hp : x.phase with
-  | reqLine s =>
-    rw [hp] at h
-    exact ⟨s.rb, h.1.recv.rb, h.1.recv.base, h.1.recv.off_le, h.1.recv.inside.1, h.1.recv.inside.2, rfl, h.1.sz⟩
-  | headers s fs =>
-    rw [hp] at h
-    exact ⟨s.rb, h.1.recv.rb, h.1.recv.base, h.1.recv.off_le, h.1.recv.inside.1, h.1.recv.inside.2, rfl, h.1.sz⟩
-  | headersDone _ => simp only [CR.reading, hp] at hr; cases hr
-  | error _ => simp only [CR.reading, hp] at hr; cases hr
-  | fault _ => simp only [CR.reading, hp] at hr; cases hr
-  | refused _ => simp only [CR.reading, hp] at hr; cases hr
+  cases hp : x.phase <;> rw [hp] at h hv <;> simp only [Phase.view?, Option.some.injEq, Prod.mk.injEq] at hv
+  · obtain ⟨rfl, rfl⟩ := hv; exact key h.1
+  · obtain ⟨rfl, rfl⟩ := hv; exact key h.1
+  · obtain ⟨rfl, rfl⟩ := hv; exact key h.1
+  · obtain ⟨rfl, rfl⟩ := hv; exact key h.1
+  · obtain ⟨rfl, rfl⟩ := hv; exact key h.1
+  · obtain ⟨rfl, rfl⟩ := hv; exact key h
+  all_goals cases hv
 
 end Mhd.ConnRead
